@@ -3,7 +3,7 @@
 //
 //	forall x: Bunquote(Bquote(x)) == (x, nil)   and   Bquote(x) contains no ',' ':' or newline
 //
-// BOUND: every byte string of length 0..2 (65 793 strings), every string of length 3 over a 24-byte alphabet of
+// BOUND: every byte string of length 0..2 (65 793 strings), every string of length 3 over a 27-byte alphabet of
 // separators, quotes, backslashes, control bytes and UTF-8 lead/continuation bytes, and (thorough) length 4 over
 // a 12-byte alphabet. Labelled bounded; never counted as proved.
 package quote
@@ -49,13 +49,30 @@ func TestVerifBoundedQuoteRoundTrip(t *testing.T) {
 			check([]byte{byte(a), byte(b)})
 		}
 	}
-	alpha3 := []byte{'"', '\\', ',', ':', '\n', '\r', '\t', 0, 1, 0x1f, ' ', 'a', '0', '7', 'x', 'u', 0x7f, 0x80, 0xa0, 0xad, 0xc3, 0xa9, 0xe2, 0xff}
+	alpha3 := []byte{'"', '\\', ',', ':', '\n', '\r', '\t', 0, 1, 0x1f, ' ', 'a', '0', '7', 'x', 'u', 0x7f, 0x80, 0xa0, 0xad, 0xc3, 0xa9, 0xe2, 0xff, 0xef, 0xbf, 0xbd}
 	for _, a := range alpha3 {
 		for _, b := range alpha3 {
 			for _, c := range alpha3 {
 				check([]byte{a, b, c})
 			}
 		}
+	}
+	// every Unicode code point (surrogates excluded: not encodable), alone and between two ASCII bytes: the quoting
+	// works rune by rune, and single runes (U+FFFD, U+0080..U+00FF, U+2028, non-printables) have their own escapes
+	step := rune(1)
+	if os.Getenv("VERIF_TIER") != "thorough" {
+		step = 7 // quick: every code point below U+3000 and around the special ones, every 7th elsewhere
+	}
+	for r := rune(0); r <= 0x10FFFF; r++ {
+		if r >= 0xD800 && r <= 0xDFFF {
+			continue
+		}
+		if step > 1 && r >= 0x3000 && !(r >= 0xFE00 && r <= 0x10100) && !(r >= 0xE0000 && r <= 0xE0200) && r < 0x10FF00 && r%step != 0 {
+			continue
+		}
+		enc := []byte(string(r))
+		check(enc)
+		check(append(append([]byte{'a'}, enc...), ','))
 	}
 	if os.Getenv("VERIF_TIER") == "thorough" {
 		alpha4 := []byte{'"', '\\', ',', ':', '\n', 0, 'a', '0', 0x80, 0xc3, 0xa9, 0xff}
